@@ -760,7 +760,14 @@ def execute(trace, rng):
             elif k == "batch":
                 before = {sid: regM.is_resolved(sid) for sid in regM.items}
                 w.stats["explicit_wins"] += sum(1 for sid in op["items"] if sid in regM.items)
-                w.sut("add_new_items", M.add_new_items, caller_keys(trace, op["items"]), "user")
+                # the caller's dict: its own table of colours, which it may register elsewhere as well
+                passed = caller_keys(trace, op["items"])
+                w.sut("add_new_items", M.add_new_items, passed, "user")
+                plain = {getattr(k, "value", k): v for k, v in passed.items()}
+                if plain != dict(op["items"]) or len(passed) != len(op["items"]):
+                    raise Violation("delivery", "callers-items-modified",
+                                    f"add_new_items changed the dict it was given: {sorted(plain)} "
+                                    f"(was {sorted(op['items'])})")
                 regM.deliver(op["items"])
                 w.count_late(regM, before)
                 w.delivered_log.append(["batch", op["items"]])
